@@ -509,8 +509,9 @@ def build_tables(F, fieldmap=None):
     return tables
 
 
-def sfnt(tables):
+def sfnt(tables, directory_order='sorted'):
     tags = sorted(tables); n = len(tags)
+    if directory_order == 'reversed': tags = tags[::-1]          # the library's own file reader searches the directory linearly: any order must work
     out = be('IHHHH', 0x00010000, n, 0, 0, 0); off = 12 + 16 * n; recs = b''; data = b''
     for t in tags:
         d = tables[t]; recs += t + be('III', 0, off + len(data), len(d)); data += d + b'\0' * (-len(d) % 4)
